@@ -73,7 +73,11 @@ def compare(ra, rb, rtol, circ=False, atol=0.0, circ_atol=1e-6, exact=False):
                 return False, {"reason": "directions differ", "item": n, "worst_over_tol": worst, "a": av, "b": bv}
         else:
             sc = np.nanmax(np.abs(av)) if av.size and np.isfinite(av.astype("float64")).any() else 0.0
-            ok, worst = close(bv, av, rtol, atol=atol + rtol * 1e-3 * sc)
+            at = atol
+            if hasattr(atol, "dims"):
+                # per-position absolute tolerance (signed sums: rounding scales with the unsigned total)
+                at = np.abs(np.asarray(align_to(atol, a).values, dtype="float64")) if atol.dims else abs(float(atol))
+            ok, worst = close(bv, av, rtol, atol=at + rtol * 1e-3 * sc)
             if not ok:
                 return False, {"reason": "values differ", "item": n, "worst_over_tol": worst, "a": av, "b": bv}
     return True, None
@@ -140,9 +144,24 @@ def compare_parts(ra, rb, nfixed):
     return True, None
 
 
-def compare_op(op, ra, rb, f32, rtol=None, circ_atol=None, multiset=True):
-    """Compare two results of the same operation. Returns (ok | None, detail); None = inconclusive."""
+SIGNED = {"uss_x": "uss", "uss_y": "uss"}
+
+
+def signed_scale(op, x, aux=None):
+    """For a signed directional sum, the unsigned total whose size bounds its rounding error (else None)."""
+    if op.name not in SIGNED:
+        return None
+    r = getattr(x.spec, SIGNED[op.name])()
+    return r.compute() if hasattr(r, "compute") else r
+
+
+def compare_op(op, ra, rb, f32, rtol=None, circ_atol=None, multiset=True, scale=None):
+    """Compare two results of the same operation. Returns (ok | None, detail); None = inconclusive.
+    scale: DataArray from signed_scale(); the values may differ by rtol*32*scale in absolute terms."""
     name = op.name
+    if scale is not None:
+        rt_ = rtol if rtol is not None else (2e-5 if f32 else 1e-9)
+        return compare(ra, rb, rt_, atol=scale * (32.0 * rt_))
     if op.watershed and multiset:
         return compare_parts(ra, rb, 1 if name == "ptm1" else (2 if name == "ptm2" else 0))
     if name in CANCEL:
